@@ -149,8 +149,10 @@ def effect_free_asserts(rep: Report, prog: Program, resolver: Resolver, rid: str
                     targets = [t for cs in resolver.callsites(q) if cs.node is x for t in cs.targets]
                     for t in targets:
                         sub = Reach(resolver, [t])
+                        # interning a value the test computes (`assert a * b is c`) is invisible: the intern tables do not count
                         ws = [w for g in sub.reached if prog.functions[g].module not in ("hypothesis", "pytest")
-                              for w in writes_in(prog, resolver, g) if sub.feasible_node(g, w.node)]
+                              for w in writes_in(prog, resolver, g) if sub.feasible_node(g, w.node)
+                              and w.location.split(".")[-1] not in ("_known",) and not w.location.startswith("attr:")]
                         if ws:
                             why, where = f"calls {t}, which writes {sorted({w.location for w in ws})[:3]}", x
                             break
@@ -184,6 +186,7 @@ def run(rep: Report) -> None:
              "one-step conversion, caught formatting error): no unbounded mutual recursion between operators", floor=3)
     rep.rule("R07.9", "every assert in the package is free of effects: no binding, no mutator, no call that writes shared state inside its test "
              "(python -O removes the statement with everything it does)", floor=1)
+    rep.rule("R07.11", "no comparison method answers by asking the mirrored comparison of the same operands swapped (re-entered when the other side returns NotImplemented)", floor=5)
     rep.rule("R07.10", "where _cancel_factors pops under a dimension and under its inverse, it tests that the two are different keys (Number is its own inverse)", floor=1)
     rep.rule("R07.5", "planner zone: no reduce() without initialiser over a possibly empty sequence; no true division by "
              "something derived from the converted magnitude; no type errors reported by mypy", floor=3)
@@ -480,6 +483,30 @@ def run(rep: Report) -> None:
     if not any(r_.rid == "R07.8" and r_.instances for r_ in rep.rules.values()):
         rep.ok("R07.8", "Measurement", note="no direct conversion in Measurement's comparison methods")
     effect_free_asserts(rep, prog, resolver, "R07.9")
+    # R07.11: `a < b` asks a.__lt__(b) and, when that returns NotImplemented, b.__gt__(a).  A comparison method that answers by
+    # asking the mirrored question with the operands swapped (`return other > self` inside __lt__) is therefore re-entered with
+    # the very same operands whenever the other side declines - which is exactly what Quantity's operators do when no conversion
+    # exists: RecursionError where TypeError (or False) is due.
+    MIRROR = {"__lt__": ast.Gt, "__gt__": ast.Lt, "__le__": ast.GtE, "__ge__": ast.LtE, "__eq__": ast.Eq, "__ne__": ast.NotEq}
+    n11 = 0
+    for ci_ in sorted((c for c in prog.classes.values() if c.module == ""), key=lambda c: c.name):
+        for d_, op_ in MIRROR.items():
+            q_ = ci_.methods.get(d_)
+            if q_ is None:
+                continue
+            f_ = prog.func(q_)
+            ps_ = f_.params()
+            if len(ps_) < 2:
+                continue
+            n11 += 1
+            loops_ = [c for c in ast.walk(f_.node) if isinstance(c, ast.Compare) and len(c.ops) == 1 and isinstance(c.ops[0], op_)
+                      and isinstance(c.left, ast.Name) and c.left.id == ps_[1] and isinstance(c.comparators[0], ast.Name) and c.comparators[0].id == ps_[0]]
+            loops_ += [c for c in ast.walk(f_.node) if isinstance(c, ast.Call) and isinstance(c.func, ast.Attribute) and isinstance(c.func.value, ast.Name)
+                       and c.func.value.id == ps_[1] and MIRROR.get(c.func.attr) is not None and MIRROR[c.func.attr] is MIRROR[d_] and False]
+            rep.check("R07.11", q_, not loops_,
+                      f"{q_} answers with `{ast.unparse(loops_[0]) if loops_ else ''}`: the mirrored comparison of the same two operands. When the other operand's "
+                      "method returns NotImplemented (no conversion, another dimension) Python comes straight back here: unbounded recursion, "
+                      "RecursionError instead of TypeError", f_.where(loops_[0]) if loops_ else f_.where())
     # R07.10: _cancel_factors pops a factor filed under a dimension and one filed under its inverse; Number is its own inverse,
     # so without a test that the two keys differ the second pop takes from the list the first one may just have emptied
     cf = prog.func("conversions._cancel_factors")
